@@ -29,7 +29,7 @@ ASSUMPTIONS = [
     "slice bounds that do not fit a machine word may either raise or clamp like Python (the statement only promises no failure for in-word bounds); a null bound may raise or mean 'omitted'",
     "`s !? i` for -len <= i < 0 may give s[i] or null (the statement does not say which of the two the 'or null' accessor corresponds to); a non-integer index may give null or raise",
     "`!?` and `!%` refusing streams with a type error is counted (counter unsupported:...) and not judged",
-    "panic / fuel / crash outcomes are inconclusive here (C14 owns them)",
+    "fuel / crash outcomes are inconclusive here (C14 owns them); a panic on one of these cases is a violation (neither an element, a clamped slice nor an index error), and so is a break/continue/return leaving an access",
 ]
 PLAN = {
     "quick": {"maxlen": 6, "nested": 0, "shards": 16},
